@@ -383,7 +383,8 @@ int main(int argc, char** argv)
 			unsigned nper = quick ? 300 : 2000;
 			intent("Sample_Metropolis with a compact-support target");
 			for(int chain = 0; chain < 10; chain++)
-				for(double x : Sample_Metropolis(G, pdf, 1.0, nper, 30, 500, std::vector<double> {-4.0, 4.0}))
+				// (a step width small against the distance to the support: the chain has to walk there through the zero-density region)
+				for(double x : Sample_Metropolis(G, pdf, 0.25, nper, 40, 4000, std::vector<double> {-4.0, 4.0}))
 				{
 					insup = insup && x >= -1.0 && x <= 1.0;	  // after the burn-in the chain is inside the support
 					u.push_back(cdf(std::min(1.0, std::max(-1.0, x))));
